@@ -49,6 +49,11 @@ def run(pid, tier, replay):
     n_thm, n_closed, thm_details, thm_failed = common.check_theorems(spec['theorems']) if not os.environ.get('VERIF_DEV') else (1, 1, [], [])
     log('theorems: %d stated, %d closed under the global context; failed files: %s' % (n_thm, n_closed, thm_failed))
     cov = spec['fn'](ctx) or {}
+    # the harness process itself died while producing a stream (an engine panic reached outside the recovered observation
+    # points): the stream is truncated, so "nothing found" would mean nothing; the panic text names the input
+    for hd in common.HARNESS_DEATHS[:3]:
+        v.violation('harness-process-died-while-driving-the-engine', dict(hd, how='cd /verif/build && VERIF_SEED=%s ./%s' % (hd['seed'], hd['command'])),
+                    signature=sig(pid, 'harness-death', hd['command']))
     # a broken proof / audit / correspondence without a concrete failing input is still a violation (brief): say so
     if not v.violations:
         if thm_failed or n_closed < n_thm:
@@ -1287,8 +1292,16 @@ def c14(ctx):
             if rnd.random() < 0.3:
                 o = p['fen']
             hist.append(S.pos_cmd(o))
-            k = rnd.randint(0, 5)
-            if k == 0:
+            k = rnd.randint(0, 8)
+            if k == 6:
+                # a root without legal moves answers at once, without looking at the stop channel: a stop sent right behind the go
+                hist[-1] = S.pos_cmd(rnd.choice(['7k/5Q2/6K1/8/8/8/8/8 b - - 0 1', '7k/6Q1/6K1/8/8/8/8/8 b - - 0 1', 'startpos moves f2f3 e7e5 g2g4 d8h4']))
+                hist += ['go depth 3', 'stop', ('wait',)]
+            elif k == 7:
+                hist += ['go depth 1', 'stop', ('wait',)]          # stop racing with the end of a very short search
+            elif k == 8:
+                hist += ['go infinite', 'stop', ('wait',), 'stop', 'isready']
+            elif k == 0:
                 hist += ['go depth 2', ('wait',)]
             elif k == 1:
                 hist += ['go infinite', ('sleep', 0.03), 'stop', ('wait',)]
@@ -1423,13 +1436,35 @@ def c12(ctx):
         elif not r['after_ready_ok']:
             bad = ('engine-unusable-afterwards', 'isready after the schedule was not answered')
         elif not r['after_go_ok']:
-            bad = ('engine-unusable-afterwards', 'a following `go depth 1` did not produce exactly one bestmove')
+            bad = ('engine-unusable-afterwards', 'a following `position <probe>` + `go depth 2` was not served as in a fresh session (exactly one bestmove, same scores '
+                   'and depths): ' + r.get('after_go_note', ''))
         if bad:
             d = sched_desc(r)
             d['observation'] = bad[1]
             ctx.v.violation(bad[0], d, signature=sched_sig(r, 'c12'))
             if len(ctx.v.violations) >= 5:
                 break
+    # promptness of stop where the search thread is NOT at a sync point: capture-heavy positions whose quiescence trees run for
+    # minutes; `go infinite`, stop after 50-400 ms, the bestmove must follow within the bound
+    bound = 3.0
+    heavy = ['qqqqkqqq/qqqqqqqq/8/8/8/8/QQQQQQQQ/QQQQKQQQ w - - 0 1', 'qqqqkqqq/qqqqqqqq/8/8/8/8/QQQQQQQQ/QQQQKQQQ b - - 0 1',
+             'rrqqkqrr/qqqqqqqq/8/8/8/8/QQQQQQQQ/RRQQKQRR w - - 0 1', 'qrbnkbrq/pppppppp/8/8/8/8/PPPPPPPP/QRBNKBRQ w - - 0 1',
+             'qqqqkqqq/pppppppp/8/8/8/8/PPPPPPPP/QQQQKQQQ w - - 0 1', '3qk1q1/q2q3q/1q6/8/8/1Q6/Q2Q3Q/3QK1Q1 w - - 0 1']
+    rcw, outw, errw, _ = harness(['widefens', str(8 if ctx.quick else 60)])
+    heavy += [l.split('\t')[0] for l in outw.strip().split('\n') if '\t' in l]
+    ljobs = [S.Job(f, 'go infinite', stop_after=d) for f in heavy for d in ((0.05, 0.4) if ctx.quick else (0.0, 0.05, 0.4, 1.5))]
+    S.run_jobs(ljobs, workers=6, per_job_timeout=bound + 2.0)
+    slow = 0
+    for j in ljobs:
+        late = j.timeout or (not j.died and j.elapsed - j.stop_after > bound)
+        if j.died or late:
+            slow += 1
+            if slow <= 3:
+                ctx.v.violation('search-did-not-end-promptly-after-stop' if late else 'engine-died-after-stop',
+                                {'fen': j.fen, 'go': 'go infinite', 'stop_sent_after_s': j.stop_after, 'bound_s': bound, 'bestmove_seen': not j.timeout and not j.died,
+                                 'seconds_from_go_to_bestmove': round(j.elapsed, 2), 'stderr': j.stderr[-400:],
+                                 'how': '`position fen %s`, `go infinite`, wait %.2f s, `stop`: no bestmove within %.0f s' % (j.fen, j.stop_after, bound)},
+                                signature=sig('c12lat', j.fen))
     rc2, out2, err2, _ = harness(['idle'])
     if 'blocked=0 bestmoves=1 readyoks=3' not in out2:
         ctx.v.violation('stop-or-isready-with-no-search-misbehaves', {'script': 'stop stop isready stop `position startpos` stop isready `go depth 1` ... stop stop isready',
@@ -1441,8 +1476,8 @@ def c12(ctx):
         if races:
             ctx.v.violation('data-race-between-command-and-search-thread', {'race_detector_report': err_r[:3000], 'schedules_run': len(rows2)}, signature='c12race')
     ctx.assumptions.append('Go memory model / scheduler below the granularity of shared operations is not modelled (label: partial); race detector run in the thorough tier')
-    return {'evaluations': len(rows) + 1, 'distinct_nontrivial': len(nontrivial),
-            'rule': 'interleavings: command words {stop, isready, stop stop, isready stop, stop isready} x search-thread phases {entered, after root move k of iteration d, iteration '
+    return {'evaluations': len(rows) + 1 + len(ljobs), 'distinct_nontrivial': len(nontrivial), 'stop_latency_searches': len(ljobs),
+            'rule': 'stop latency on capture-heavy positions (real binary, stop 50-400 ms after go infinite, bestmove within 3 s); interleavings: command words {stop, isready, stop stop, isready stop, stop isready} x search-thread phases {entered, after root move k of iteration d, iteration '
                     'done, before bestmove, after bestmove} (d<=%d, k<%d) x go form, then isready and another go; every command has a liveness deadline; plus commands with no search '
                     'alive; non-trivial = distinct (phase, command word, go form)' % (maxd, maxk),
             'schedules': len(rows), 'race_detector_reports': races, 'traces_validated_against_impl': len(rows),
@@ -1568,6 +1603,9 @@ def c17(ctx):
 # blocked positions with one or two legal moves per side: iteration 40 is reached in milliseconds
 FORTRESSES = ['4b1k1/3p1p1p/3P1P1P/8/8/3p1p1p/3P1P1P/4B1K1 w - - 0 1', '4bk2/3p1p1p/3P1P1P/8/8/3p1p1p/3P1P1P/4BK2 w - - 0 1',
               '4b1k1/3p1p1p/3P1P1P/8/8/3p1p1p/3P1P1P/4B1K1 b - - 0 30']
+# blocked positions that reach iteration 40 AND have a protected pawn exchange available at every node: nominal depth 40 plus
+# quiescence plies below it (position stack and PV table beyond index 41)
+EXCHANGE_FORTRESSES = ['k1b5/1p1p2p1/1P1P2p1/6Pp/6PP/1p1p3P/1P1P4/K1B5 w - - 0 57', 'k1b5/1p1p2p1/1P1P2p1/6Pp/6PP/1p1p3P/1P1P4/K1B5 b - - 0 57']
 CAPTURE_HEAVY = ['qqqqkqqq/8/8/8/8/8/8/QQQQKQQQ w - - 0 1', 'rnbqkbnr/8/8/8/8/8/8/RNBQKBNR w - - 0 1', 'k7/8/8/3qrbnp/3QRBNP/8/8/K7 w - - 0 1',
                  'r1b1k2r/pp1n1ppp/2p1pn2/3p2B1/1bPP4/2N1PN2/PPQ2PPP/R3KB1R w KQkq - 0 1', '3rr1k1/ppp2ppp/2n5/3qp3/3Q4/2P1PN2/PP3PPP/3RR1K1 w - - 0 1',
                  'q3k2q/1q4q1/2q2q2/3qq3/3QQ3/2Q2Q2/1Q4Q1/Q3K2Q w - - 0 1']
@@ -1587,6 +1625,9 @@ def c18(ctx):
     for f in FORTRESSES:
         for go in ['go depth 38', 'go depth 39', 'go depth 40', 'go depth 41', 'go depth 100', 'go depth 100000', 'go wtime 60000 btime 60000', 'go movetime 1500', 'go']:
             jobs.append(S.Job(f, go, tag='fortress', stop_after=2.0 if go == 'go' else None))
+    for f in EXCHANGE_FORTRESSES:
+        for go in ['go depth 40', 'go depth 100000', 'go wtime 600000 btime 600000']:
+            jobs.append(S.Job(f, go, tag='fortress'))
     # long capture sequences below the nominal depth
     for f in CAPTURE_HEAVY:
         for go in ['go depth 1', 'go depth 2', 'go movetime 300']:
@@ -1654,6 +1695,28 @@ def c19(ctx):
         end = rng.choice(['quit', 'eof'])
         delay = rng.choice([0.0, 0.0, 0.05, 0.3]) if state in ('searching', 'after-search', 'terminal-root-go', 'stopped-search', 'isready-then') else 0.0
         trials.append((state, pre, end, delay))
+    # `quit` behind stop sequences while the search thread is held at a phase (in-process, sync hooks): the command thread must get
+    # through every command and reach the quit (it sets the flag the read loop tests)
+    kiwi = 'r3k2r/p1ppqpb1/bn2pnp1/3PN3/1p2P3/2N2Q1p/PPPBBPPP/R3K2R w KQkq - 0 1'
+    held = 0
+    for (pt, a, b) in ((1, 0, 0), (2, 1, 0), (2, 2, 1), (3, 2, 0), (6, 2, 0), (4, 0, 0)):
+        for cmds in (['stop', 'stop', 'quit'], ['stop', 'isready', 'stop', 'stop', 'quit'], ['isready', 'quit']):
+            gocmd = 'go infinite' if pt != 4 else 'go depth 2'
+            rc, out, err, _ = harness(['sched1', kiwi, gocmd, str(pt), str(a), str(b), '0'] + cmds, timeout=120)
+            held += 1
+            row = None
+            for l in out.split('\n'):
+                if l.strip().startswith('{'):
+                    try:
+                        row = json.loads(l)
+                    except ValueError:
+                        pass
+            if row is None:
+                continue          # the harness died: reported through HARNESS_DEATHS
+            if row['blocked'] or not row.get('quit_flag'):
+                ctx.v.violation('quit-not-reached-behind-stop-sequence', {'fen': kiwi, 'go': gocmd, 'search_thread_held_at': row['at'], 'commands': cmds,
+                                'blocked_commands': row['blocked'], 'quit_handled': row.get('quit_flag'),
+                                'how': 'verifh sched1 "%s" "%s" %d %d %d 0 %s' % (kiwi, gocmd, pt, a, b, ' '.join(cmds))}, signature=sig('c19held', pt, a, b, ' '.join(cmds)))
     bad = 0
     samples = []
     for state, pre, end, delay in trials:
@@ -1690,7 +1753,7 @@ def c19(ctx):
             ctx.v.violation('engine-does-not-terminate', {'state': state, 'script': pre, 'ended_by': end, 'exit_code': rc, 'waited_s': round(el, 2),
                             'how': 'feed the script, then %s' % ('send quit' if end == 'quit' else 'close stdin')}, signature=sig('c19', state, end))
     ctx.assumptions.append('OS pipe semantics and process teardown are observed, not modelled (label: partial)')
-    return {'evaluations': len(trials), 'distinct_nontrivial': len(set((s, e) for s, _, e, _ in trials)),
+    return {'evaluations': len(trials) + held, 'distinct_nontrivial': len(set((s, e) for s, _, e, _ in trials)), 'held_stop_quit_schedules': held,
             'rule': 'child processes in the states {at rest, position set, searching, right after go, after a finished search, after perft} ended by `quit` or by closing stdin; '
                     'must exit with status 0 within 3 s; non-trivial = distinct (state, ending)',
             'traces_validated_against_impl': len(trials), 'samples': samples[:4], 'partial': ['process teardown is observed only']}
